@@ -433,8 +433,12 @@ func (a updateConnectorAction) update(ctx context.Context, cfg config.Connector)
 
 	// update processor IDs
 	if !a.isEqual(c.ProcessorIDs, cfg.Processors) {
-		// recreate all processor IDs
-		for _, procID := range c.ProcessorIDs {
+		// recreate all processor IDs. Make a copy first: RemoveProcessor shifts
+		// the instance's slice in place, ranging over it directly would visit an
+		// ID twice (and fail with ErrProcessorIDNotFound) for 3 or more processors.
+		processorIDs := make([]string, len(c.ProcessorIDs))
+		_ = copy(processorIDs, c.ProcessorIDs)
+		for _, procID := range processorIDs {
 			_, err = a.connectorService.RemoveProcessor(ctx, cfg.ID, procID)
 			if err != nil {
 				return cerrors.Errorf("failed to remove processor %v: %w", procID, err)
